@@ -22,43 +22,37 @@ import yaml
 
 PARAM_RE = re.compile(r"""^\((\w+)((?:\.\w+|\['(?:[^']|\\')+'\]|\["(?:[^"]|\\")+"\]|\[[0-9]+\])*)\)$""")
 SEG_RE = re.compile(r"""\.(\w+)|\['((?:[^']|\\')+)'\]|\["((?:[^"]|\\")+)"\]|\[([0-9]+)\]""")
-TOK = re.compile(r"""\s*(?:(\d+)(?![\w.])|([A-Za-z_$][\w$]*)|'([^'\\\n]*)'|"([^"\\\n]*)"|([.\[\]()+?:=,;{}]))""")
-KEYWORDS = {"var", "function", "return", "if", "else", "true", "false"}
-JS_RESERVED = set("break do instanceof typeof case new catch finally void continue for switch while debugger this with "
-                  "default throw delete in try class enum extends super const export import implements let private "
-                  "public interface package protected static yield null undefined".split())
-OPS = ["===", "!==", "==", "!=", "<=", ">=", "&&", "||", "++", "--", "+=", "-=", "<", ">", "*", "/", "-", "%", "!", "&", "|", "~", "^"]
+OPS3 = ["===", "!==", "==", "!=", "<=", ">=", "&&", "||", "++", "--", "+=", "-=", "*=", "/="]
+TOK = re.compile(r"""\s*(?:/\*.*?\*/|//[^\n]*)|\s*(?:(\d+)(?![\w.])|([A-Za-z_$][\w$]*)|'((?:[^'\\\n]|\\.)*)'|"((?:[^"\\\n]|\\.)*)"|"""
+                 r"""(===|!==|==|!=|<=|>=|&&|\|\||\+\+|--|\+=|-=|\*=|/=|[.\[\]()+?:=,;{}<>*/%!-]))""", re.S)
+KEYWORDS = {"var", "function", "return", "if", "else", "true", "false", "null", "for", "while", "throw", "typeof"}
+JS_RESERVED = set("break do instanceof case new catch finally void continue switch debugger this with "
+                  "default delete in try class enum extends super const export import implements let private "
+                  "public interface package protected static yield undefined".split())
+ESC_OK = re.compile(r"""^(?:[^\\]|\\[\\'"nt/])*$""")
 
 
 def classify(msg):
     """The syntactic feature that keeps an expression outside the modelled ES5 subset."""
     m = msg.strip()
-    if m.startswith("/*") or m.startswith("//"):
-        return "comment"
-    for op in OPS:
-        if m.startswith(op):
-            return "operator other than + and ?: (" + op + ")"
     if m.startswith("keyword "):
-        return "statement/keyword outside the subset (" + m[8:] + ")"
-    if m in ("('p', '{')", "block / object literal"):
-        return "object literal"
-    if m == "('p', '[')":
-        return "array literal"
-    if m.startswith("'") or m.startswith('"') or "escape" in m:
-        return "string literal with escapes / backslash in text"
+        return "keyword outside the subset (" + m[8:] + ")"
+    if m.startswith("feature "):
+        return m[8:]
     if m[:1].isdigit() or m.startswith("."):
         return "non-integer number literal"
-    if m == "parenthesisation":
-        return "parenthesisation"
     if m == "non-ascii":
         return "non-ASCII text"
     if m.startswith("library"):
         return "expressionLib with statements other than function declarations"
-    return "other: " + m[:20]
+    return "other: " + m[:24]
 
 
 class NoParse(Exception):
     pass
+
+
+BIN_LEVELS = [["||"], ["&&"], ["===", "!==", "==", "!="], ["<", ">", "<=", ">="], ["+", "-"], ["*", "/", "%"]]
 
 
 class P:
@@ -66,22 +60,37 @@ class P:
         self.toks = []
         i = 0
         text = text.rstrip()
+        rx = re.compile(r"\s*/((?:[^/\\\n*]|\\.)(?:[^/\\\n]|\\.)*)/([gimuy]*)")
         while i < len(text):
+            prev = self.toks[-1] if self.toks else None
+            if prev is None or (prev[0] == "p" and prev[1] not in (")", "]", "}")) or prev == ("kw", "return"):
+                mr = rx.match(text, i)
+                if mr:                          # a regular-expression literal: an opaque non-inputs value
+                    self.toks.append(("regex", mr.group(0).strip()))
+                    i = mr.end()
+                    continue
             m = TOK.match(text, i)
-            if not m:
+            if not m or m.end() == i:
                 if text[i:].strip() == "":
                     break
-                raise NoParse(text[i:i + 10])
+                raise NoParse(text[i:].strip()[:10])
             if m.group(1) is not None:
                 self.toks.append(("num", int(m.group(1))))
             elif m.group(2) is not None:
                 w = m.group(2)
                 self.toks.append(("kw", w) if w in KEYWORDS else ("id", w))
-            elif m.group(3) is not None:
-                self.toks.append(("str", False, m.group(3)))
-            elif m.group(4) is not None:
-                self.toks.append(("str", True, m.group(4)))
-            else:
+            elif m.group(3) is not None or m.group(4) is not None:
+                raw = m.group(3) if m.group(3) is not None else m.group(4)
+                if not ESC_OK.match(raw):
+                    raise NoParse("feature string escape other than \\\\ \\' \\\" \\n \\t \\/")
+                if "\\" in raw:
+                    # the model's string literal carries its VALUE; the listener only ever looks at the text of a literal
+                    # used as an index on an identifier, which postfix() refuses for escaped literals
+                    val = re.sub(r"\\(.)", lambda mm: {"n": "\n", "t": "\t"}.get(mm.group(1), mm.group(1)), raw)
+                    self.toks.append(("str", m.group(4) is not None, val, True))
+                else:
+                    self.toks.append(("str", m.group(4) is not None, raw))
+            elif m.group(5) is not None:
                 self.toks.append(("p", m.group(5)))
             i = m.end()
         self.i = 0
@@ -97,26 +106,38 @@ class P:
 
     def eat(self, c):
         if not self.isp(c):
-            raise NoParse(f"expected {c}")
+            raise NoParse(f"expected {c} got {self.peek()}")
         self.i += 1
 
     def ident(self):
         t = self.peek()
-        if t[0] != "id":
-            raise NoParse("ident")
+        if t[0] != "id" or t[1] in JS_RESERVED:
+            raise NoParse("keyword " + str(t[1]) if t[0] == "id" else "ident")
         self.i += 1
         return t[1]
 
     # expressions
     def assign(self):
-        if self.peek()[0] == "id" and self.isp("=", 1) and not self.isp("=", 2):
+        if self.peek()[0] == "id" and self.peek(1)[0] == "p" and self.peek(1)[1] in ("=", "+=", "-=", "*=", "/="):
             x = self.ident()
+            op = self.peek()[1]
+            self.i += 1
+            r = self.assign()
+            if op == "=":
+                return ["assign", x, r]
+            if op == "+=":
+                return ["assign", x, ["add", ["id", x], r]]
+            return ["assign", x, ["op", op[0], [["id", x], r]]]
+        e = self.cond()
+        if self.isp("=") and e[0] in ("dot", "idx"):
             self.eat("=")
-            return ["assign", x, self.assign()]
-        return self.cond()
+            return ["assignm", e, self.assign()]
+        if self.peek()[0] == "p" and self.peek()[1] in ("+=", "-=", "*=", "/="):
+            raise NoParse("feature compound assignment to a member")
+        return e
 
     def cond(self):
-        c = self.add()
+        c = self.binary(0)
         if self.isp("?"):
             self.eat("?")
             a = self.assign()
@@ -125,14 +146,38 @@ class P:
             return ["cond", c, a, b]
         return c
 
-    def add(self):
-        a = self.postfix()
-        while self.isp("+"):
-            self.eat("+")
-            if self.isp("+") or self.isp("="):
-                raise NoParse("++ / +=")
-            a = ["add", a, self.postfix()]
+    def binary(self, lvl):
+        if lvl == len(BIN_LEVELS):
+            return self.unary()
+        a = self.binary(lvl + 1)
+        while self.peek()[0] == "p" and self.peek()[1] in BIN_LEVELS[lvl]:
+            op = self.peek()[1]
+            self.i += 1
+            b = self.binary(lvl + 1)
+            if op == "+":
+                a = ["add", a, b]
+            elif op in ("&&", "||"):
+                a = ["logic", op == "&&", a, b]
+            else:
+                a = ["op", op, [a, b]]
         return a
+
+    def unary(self):
+        if self.isp("!"):
+            self.eat("!")
+            return ["op", "!", [self.unary()]]
+        if self.isp("-"):
+            self.eat("-")
+            return ["op", "neg", [self.unary()]]
+        if self.iskw("typeof"):
+            self.i += 1
+            return ["op", "typeof", [self.unary()]]
+        if self.isp("++") or self.isp("--"):
+            raise NoParse("feature prefix increment")
+        e = self.postfix()
+        if self.isp("++") or self.isp("--"):
+            raise NoParse("feature ++/-- used as a value")
+        return e
 
     def postfix(self):
         e = self.primary()
@@ -146,6 +191,8 @@ class P:
                 e = ["dot", e, t[1]]
             elif self.isp("["):
                 self.eat("[")
+                if self.peek()[0] == "str" and len(self.peek()) == 4 and e[0] == "id":
+                    raise NoParse("feature escaped string literal as index on an identifier")
                 k = self.assign()
                 self.eat("]")
                 e = ["idx", e, k]
@@ -172,6 +219,12 @@ class P:
         if t == ("kw", "true") or t == ("kw", "false"):
             self.i += 1
             return ["bool", t[1] == "true"]
+        if t == ("kw", "null"):
+            self.i += 1
+            return ["op", "null", []]
+        if t[0] == "regex":
+            self.i += 1
+            return ["op", "regex", [], [t[1]]]
         if t[0] == "id":
             if t[1] in JS_RESERVED:
                 raise NoParse("keyword " + t[1])
@@ -182,6 +235,35 @@ class P:
             e = self.assign()
             self.eat(")")
             return ["paren", e]
+        if self.isp("["):
+            self.eat("[")
+            xs = []
+            while not self.isp("]"):
+                xs.append(self.assign())
+                if self.isp(","):
+                    self.eat(",")
+            self.eat("]")
+            return ["op", "arr", xs]
+        if self.isp("{"):
+            self.eat("{")
+            keys, vals = [], []
+            while not self.isp("}"):
+                k = self.peek()
+                if k[0] in ("id", "kw"):
+                    keys.append(k[1])
+                elif k[0] == "str":
+                    keys.append(k[2])
+                elif k[0] == "num":
+                    keys.append(str(k[1]))
+                else:
+                    raise NoParse("object key")
+                self.i += 1
+                self.eat(":")
+                vals.append(self.assign())
+                if self.isp(","):
+                    self.eat(",")
+            self.eat("}")
+            return ["op", "obj", vals, keys]
         if t == ("kw", "function"):
             self.i += 1
             ps, body = self.fun_rest()
@@ -212,50 +294,100 @@ class P:
         elif not (self.isp("}") or self.peek()[0] == "eof"):
             raise NoParse("missing ;")
 
+    def incr(self):
+        """i++ / i-- in statement or for-update position: i = i + 1 (the value is discarded there)."""
+        if self.peek()[0] == "id" and (self.isp("++", 1) or self.isp("--", 1)):
+            x = self.ident()
+            op = self.peek()[1]
+            self.i += 1
+            one = ["num", 1]
+            return ["assign", x, ["add", ["id", x], one] if op == "++" else ["op", "-", [["id", x], one]]]
+        return None
+
+    def vardecls(self):
+        out = []
+        while True:
+            x = self.ident()
+            if self.isp("="):
+                self.eat("=")
+                out.append(["vari", x, self.assign()])
+            else:
+                out.append(["var", x])
+            if self.isp(","):
+                self.eat(",")
+                continue
+            return out
+
+    def body_of(self):
+        return self.block() if self.isp("{") else self.stmt()
+
     def stmt(self):
         if self.isp(";"):
             self.eat(";")
             return []
         if self.iskw("var"):
             self.i += 1
-            out = []
-            while True:
-                x = self.ident()
-                if self.isp("="):
-                    self.eat("=")
-                    out.append(["vari", x, self.assign()])
-                else:
-                    out.append(["var", x])
-                if self.isp(","):
-                    self.eat(",")
-                    continue
-                break
+            out = self.vardecls()
             self.semi()
             return out
         if self.iskw("return"):
             self.i += 1
+            if self.isp(";") or self.isp("}") or self.peek()[0] == "eof":
+                raise NoParse("feature return without a value")
             e = self.assign()
             self.semi()
             return [["ret", e]]
+        if self.iskw("throw"):
+            self.i += 1
+            e = self.assign()
+            self.semi()
+            return [["expr", ["op", "throw", [e]]]]
         if self.iskw("if"):
             self.i += 1
             self.eat("(")
             c = self.assign()
             self.eat(")")
-            t = self.block() if self.isp("{") else self.stmt()
+            t = self.body_of()
             f = []
             if self.iskw("else"):
                 self.i += 1
-                f = self.block() if self.isp("{") else self.stmt()
+                f = self.body_of()
             return [["if", c, t, f]]
+        if self.iskw("while"):
+            self.i += 1
+            self.eat("(")
+            c = self.assign()
+            self.eat(")")
+            return [["for", [], c, None, self.body_of()]]
+        if self.iskw("for"):
+            self.i += 1
+            self.eat("(")
+            init = []
+            if self.iskw("var"):
+                self.i += 1
+                init = self.vardecls()
+                if self.peek() == ("id", "in") or self.peek() == ("id", "of"):
+                    raise NoParse("feature for-in loop")
+            elif not self.isp(";"):
+                init = [["expr", self.assign()]]
+                if self.peek() == ("id", "in"):
+                    raise NoParse("feature for-in loop")
+            self.eat(";")
+            c = None if self.isp(";") else self.assign()
+            self.eat(";")
+            u = None
+            if not self.isp(")"):
+                u = self.incr() or self.assign()
+            self.eat(")")
+            return [["for", init, c, u, self.body_of()]]
         if self.iskw("function"):
             self.i += 1
             name = self.ident()
             ps, body = self.fun_rest()
             return [["fun", name, ps, body]]
         if self.isp("{"):
-            raise NoParse("block / object literal")
-        e = self.assign()
+            return self.block()
+        e = self.incr() or self.assign()
         self.semi()
         return [["expr", e]]
 
@@ -362,8 +494,6 @@ def translate(c):
         lib = []
         for lt in c["lib_text"]:
             lib.extend(parse_body(lt))
-        if any(s[0] != "fun" for s in lib):
-            raise NoParse("library with statements other than function declarations")
         return parts, lib, None
     except NoParse as e:
         return None, None, classify(str(e))
@@ -372,8 +502,6 @@ def translate(c):
 
 
 def main():
-    from harness.props.c31 import normalise
-
     repo = sorted(glob.glob("/repo/**/*.cwl", recursive=True))
     pk = "/venv/lib/python3.12/site-packages"
     pkg = sorted(glob.glob(pk + "/cwltool/tests/**/*.cwl", recursive=True) +
@@ -394,11 +522,7 @@ def main():
         case = {"f": "realworld", "text": c["text"], "lib_text": c["lib_text"], "src": c["src"],
                 "parts": None, "lib": None, "why_not_modelled": why}
         if parts is not None:
-            n = normalise({"f": "realworld", "lib": lib, "parts": parts})
-            if n["parts"] == parts and n["lib"] == lib:
-                case["parts"], case["lib"] = parts, lib
-            else:                           # the printed form would need parentheses the text does not have
-                case["why_not_modelled"] = "parenthesisation"
+            case["parts"], case["lib"] = parts, lib
         cases.append(case)
     json.dump({"cases": cases}, open(os.path.join(os.path.dirname(__file__), "..", "..", "corpus", "C31",
                                                   "realworld.json"), "w"), indent=0)
